@@ -105,6 +105,7 @@ def configs(tier, seed):
         if c["name"] not in seen:
             seen.add(c["name"])
             res.append(c)
+    res.extend(modeb_configs(tier, list(T_OF)))
     res.append(dict(_cfg("T_HOO", "B", 1, 2), name="twin-T_HOO", twin=True, expect_fail="twin"))
     return res
 
@@ -128,3 +129,36 @@ def run(ctx, cfg):
         ctx.observe("last", lp)
     if cfg.get("twin"):
         ctx.check_ge("twin", lp[0], (dom[0][0] + dom[0][1]) / 2, "reachability witness: deliberately false")
+
+
+# ---- Mode B (DESIGN §2): concrete box, concrete objective-like prefix of P rounds, k symbolic rounds
+MODEB = {
+    "T_HOO": [(15, {}), (40, {})], "HCT": [(15, {}), (31, {"c": 0.1}), (63, {"c": 0.1})], "VHCT": [(7, {}), (15, {"c": 0.1})],
+    "DOO": [(12, {}), (25, {})], "SOO": [(12, {}), (30, {})], "StoSOO": [(12, {}), (30, {"k": 3})], "SequOOL": [(12, {"n": 40}), (20, {"n": 40})],
+    "StroquOOL": [(10, {"n": 200}), (14, {"n": 200})], "Zooming": [(16, {"nu": 3, "rho": 0.5}), (45, {"nu": 3, "rho": 0.5}), (40, {"nu": 1, "rho": 0.9})],
+    "POO": [(10, {"rhomax": 0.9}), (12, {"rhomax": 0.84}), (30, {"rhomax": 0.9}), (13, {"rhomax": 0.95})], "GPO": [(9, {"rhomax": 0.9}), (14, {"rhomax": 0.9}), (48, {"rhomax": 0.5})],
+    "PCT": [(9, {"rhomax": 0.9})], "VPCT": [(9, {"rhomax": 0.9})], "VROOM": [(3, {"n": 8, "h_max": 3})],
+}
+
+
+def modeb_configs(tier, algos, tag="modeb", parts=("B", "K3", "RB")):
+    q = 0 if tier == "quick" else 1
+    out = []
+    for algo in algos:
+        for (P, params) in MODEB.get(algo, []):
+            for part in parts:
+                if algo == "VROOM" and part == "K3":
+                    continue
+                for sd in ((0, 1) if part == "B" else (0,)):
+                    k = 2 + q
+                    if algo in ("VHCT", "VROOM"):
+                        k = 1 + q
+                    if algo == "Zooming" and part == "RB":
+                        k = 1 + q
+                    pre = {"P": P, "k": k, "seed": sd, "peak": 0.3 if sd == 0 else 0.8, "noise": 0.25 if sd == 0 else 0.6, "negative": sd == 1}
+                    c = _cfg(algo, part, 1, P + k, dict(params), "-P%d+%d-s%d" % (P, k, sd))
+                    c["name"] = tag + "-" + c["name"]
+                    c["prefix"] = pre
+                    c["cost"] = P
+                    out.append(c)
+    return out
